@@ -16,6 +16,9 @@ CHECKS = {
     "C03": dict(engine="cut", cat="fault_enumeration", tech="exhaustive cut-point enumeration (direction x byte offset x kind) of a scripted conversation on the real stack in virtual time; wire tap decides which responses were completely received",
                 text="A fixed conversation is cut at every byte offset of either direction with reset / EOF / custom I/O error, and closed locally or by Server.Close at every step (quick: one mode combination completely + every 7th offset of the other eight; thorough: all nine completely + race build). At quiescence every operation must have returned, completely received responses must have succeeded, the rest must have failed (ErrShutdown when sent and orderly), later calls must fail at once.",
                 note="exhaustive only for this conversation's offsets; virtual time makes 'hang' exact (blocked at quiescence), no wall-clock verdicts"),
+    "C04": dict(engine="e2e+real+pool+cut", cat="exploration", tech="handler-ledger and wire-tap conservation monitors (executions per request id, responses per sequence number) under generated workloads, Transport kills and enumerated cuts",
+                text="Every request id must be executed exactly once when its call succeeds or fails in the handler, never for unknown methods, undecodable arguments, unencodable requests or pings, never for an id nobody sent, with arguments equal to what was sent; the wire tap must show exactly one response per unary request and no unsolicited one (memnet scenarios 'mix' and 'errors', real tcp/unix/inproc sockets incl. poll-mode servers). Through Transport with server kills/restarts an id is never executed twice (no retry), and on connections cut at enumerated byte offsets nothing is executed or answered twice and nothing undelivered is executed.",
+                note="request ids are unique self-describing payloads; handler shapes (4) x codecs (4) x server modes rotate by the seed"),
     "C05": dict(engine="e2e", cat="exploration", tech="runtime monitor: handler ledger order/overlap, wire tap order, arrival order on a shared Done channel, under generated pipelining workloads",
                 text="Profile 'order' (300 / 4000 scenarios): pipelining server, one issuer per connection issuing 20..600 Go calls (25% failing in five different ways) on a shared Done channel over 1-6 connections; per connection the handler entry order, absence of overlap, wire response order and (with client pipelining) arrival order must equal issue order.",
                 note="poll-mode servers are covered by the real-network engine (see C12/C10 notes); completions caused by teardown or by a client-side encode failure are counted, not judged"),
@@ -40,6 +43,12 @@ CHECKS = {
     "C09": dict(engine="e2e", cat="exploration", tech="runtime monitor: unique (stream, direction, index) messages, sequence equality on both ends, blocked-reader detection at quiescence",
                 text="Profile 'streams' (400 / 6000 scenarios + mix): 1-16 streams per connection, handlers pushing 0/1/5 messages right after open, client writing or reading first, echo/sink/burst steps with sizes 22 B..100 KB, unary calls and pings alongside. Each end must read exactly the sequence the other wrote while the stream is open; a lost message shows as a reader blocked at quiescence.",
                 note="messages still queued when a stream is closed may be discarded by design; equality is required while open only"),
+    "C10": dict(engine="sclose+cut+pollstream", cat="fault_enumeration", tech="blocked-operation detection at quiescence in virtual time for stream close / connection end events, plus a responsiveness-relative real-time monitor for poll-mode servers",
+                text="1600 / 40000 scenarios with 1-5 sibling streams whose readers are blocked on both ends (messages optionally in flight), then one of {client closes one stream, Conn.Close, cut of either direction a few bytes ahead (reset/EOF/custom), Server.Close}: every affected blocked ReadMessage must have returned ErrStreamShutdown at quiescence, the handler must have returned, later Read/WriteMessage must return ErrStreamShutdown in zero virtual time, siblings and unary calls must be undisturbed when one stream is closed. The cut engine's byte-offset enumeration judges the stream operations of its conversation. Poll-mode (and ordinary) servers on real tcp/unix sockets: after the client disconnects the handlers must return; a handler still blocked after 8 s is a violation only if >= 20 complete dial+call probes through the same server succeeded meanwhile, else inconclusive.",
+                note="a WriteMessage racing with the shutdown may still return nil (the stream API does not surface write errors); only later writes must fail"),
+    "C12": dict(engine="matrix", cat="exploration", tech="configuration-matrix runtime monitor: pairwise-covering + random configurations of real sockets, same seeded workload, outcomes compared with the pure reference function",
+                text="A greedy pairwise-covering set (~60 configurations; every allowed pair of values of any two of 13 dimensions: network x TLS, header encoder, body codec, five server flags, two client flags, server/client buffer sizes, four ways of configuring both ends) and in the thorough tier 3000 further seeded random configurations each run the same workload (3 callers x 2 connections, a 300 KB message each way, failing calls of five kinds, pings, a stream) on real tcp/unix/http/inproc(+TLS)/ws sockets; every reply, error text and execution count must equal the reference (the pure reply function). Memnet 'mix' scenarios add to it.",
+                note="ws under poll mode is excluded (stalls inside hslam/websocket + netpoll, a dependency); the full product (~10^6) is sampled, pair coverage is measured and reported"),
     "C11": dict(engine="e2e", cat="exploration", tech="retention monitor: SHA-256 at hand-over vs at end, canary-filled caller buffers, forced GC to recycle pools",
                 text="Profile 'retain' (240 / 3000 scenarios + mix): with aliasing codecs handlers keep argument slices, callers keep replies (fresh and in context buffers) and both ends keep stream messages while thousands of further messages flow and GC runs every 3 virtual ms; everything is re-hashed at the end and canary bytes beyond the encoded reply must be intact.",
                 note="NoCopy modes and the server's shared context scratch buffer are documented as borrowed and excluded"),
@@ -102,6 +111,9 @@ def main():
             {"name": "pool", "path": "harness/vt/pool_test.go", "serves_properties": ["C13", "C14", "C15"], "kind_free_text": "real Transport over memnet in virtual time with housekeeping, kills, hook-H1 delays"},
             {"name": "policy", "path": "harness/vt/policy_test.go", "serves_properties": ["C16", "C17", "C18"], "kind_free_text": "real Client over a fake RoundTripper with scripted health/latency in virtual time; porcupine; shadow model"},
             {"name": "lifecycle", "path": "harness/vt/lifecycle_test.go", "serves_properties": ["C20"], "kind_free_text": "usage x close-order histories with goroutine/connection leak monitor"},
+            {"name": "sclose", "path": "harness/vt/sclose_test.go", "serves_properties": ["C10"], "kind_free_text": "stream close / connection end scenarios with blocked readers, virtual time"},
+            {"name": "real", "path": "harness/rt/real.go", "serves_properties": ["C01", "C04", "C05", "C09", "C10", "C11"], "kind_free_text": "the e2e scenarios on real tcp/unix/inproc sockets incl. poll-mode servers; pollstream for C10"},
+            {"name": "matrix", "path": "harness/rt/matrix.go", "serves_properties": ["C12"], "kind_free_text": "pairwise-covering + random configuration matrix on real sockets"},
             {"name": "cut", "path": "harness/vt/cut_test.go", "serves_properties": ["C03", "C10"], "kind_free_text": "cut-point enumeration of a scripted conversation in virtual time"},
         ],
         "checks": checks,
